@@ -31,7 +31,7 @@ META = {
     "trusted": "z3 (linear integer arithmetic + arrays); the view model of bytes (slicing = offset arithmetic, += of contiguous views); the "
                "file/socket stubs' contracts; cross-validated on every path whose witness total is <= 96 MB against the unpatched generator",
     "bounds": {"quick": {"P": [1, 2, 3], "R (source reads per packet)": 4, "L": "1..65536", "prefix k": "0..2^31", "read size": "-1, default, or 1..2^31-1"},
-               "thorough": {"P": [1, 2, 3, 4], "R (source reads per packet)": 7, "L": "1..65536", "prefix k": "0..2^31", "read size": "-1, default, or 1..2^31-1"}},
+               "thorough": {"P": "1..3 with R = 6; 4 with R = 4 (bytes, file with symbolic read size)", "R (source reads per packet)": "6 (4 for P = 4)", "L": "1..65536", "prefix k": "0..2^31", "read size": "-1, default, or 1..2^31-1"}},
     "stubs": ["file object: seek(0, END) -> T; read(n) -> min(n, rest) bytes (rest if n < 0); real io.BufferedIOBase subclass",
               "socket: recv(n) -> chunk of symbolic size 1..min(n, rest); blocks once all T bytes are delivered (peer open); real socket.socket subclass",
               "time.time_ns / logging: untouched, no effect on results"],
@@ -282,13 +282,14 @@ def make(job):
 
 def jobs(tier):
     q = tier == "quick"
-    R = 4 if q else 7
+    R = 4 if q else 6
     out = []
     for P in ([1, 2, 3] if q else [1, 2, 3, 4]):
         for kind in ("bytes", "file", "socket"):
             for rmode in (("default",) if kind == "bytes" else ("default", "sym")):
-                if not q or P <= 2 or (kind, rmode) in (("bytes", "default"), ("file", "sym")):
-                    out.append({"name": f"P{P}-{kind}-{rmode}", "h": "framing", "params": {"kind": kind, "P": P, "R": R, "rmode": rmode},
+                # (thorough P = 4 only for the two cheapest source / read-size combinations, with R = 4: the inductive step covers any P)
+                if (not q and P <= 3) or P <= 2 or (kind, rmode) in (("bytes", "default"), ("file", "sym")):
+                    out.append({"name": f"P{P}-{kind}-{rmode}", "h": "framing", "params": {"kind": kind, "P": P, "R": 4 if P == 4 else R, "rmode": rmode},
                                 "must_reach": [f"{'block' if kind == 'socket' else 'stop'}/{P}"], "split": 4, "chunk": 20, "max_paths": 60000})
     from checks import induct
     out += induct.jobs(tier)
